@@ -121,6 +121,11 @@ impl Property for C02 {
             }
             plan.items.push(it);
         }
+        // the script cannot be loaded AND the diagnostic about that cannot be written
+        if plan.items.iter().any(|i| matches!(i, Item::Read { .. } | Item::Open { .. } | Item::Cwd { .. }) || matches!(i, Item::Flip { bytes, .. } if bytes == &vec![0xffu8])) && rng.chance(1, 3) {
+            let e = *rng.pick(faults::WRITE_ERRNOS);
+            plan.items.push(Item::Write { fd: 2, n: 0, act: if rng.chance(1, 2) { crate::plan::Act::PErr(e) } else { crate::plan::Act::Err(e) } });
+        }
         if p.label.starts_with("W2") && rng.chance(1, 5) {
             // a located runtime/syntax diagnostic (with stack trace, after multi-byte
             // text) produced by storage corruption, so that the diagnostic path itself
@@ -167,8 +172,8 @@ impl Property for C02 {
         out.io_events = r.events.len() as u64;
         out.history_shape = r.history_shape();
         out.fired = oracle::fired_kinds(&case.plan, &r);
-        let fd1_err = r.events.iter().any(|e| e.kind == 'W' && e.fd == 1 && e.ret < 0 && e.errno != 4);
-        let fd2_err = r.events.iter().any(|e| e.kind == 'W' && e.fd == 2 && e.ret < 0 && e.errno != 4);
+        let fd1_err = r.events.iter().any(|e| e.kind == 'W' && e.fd == 1 && ((e.ret < 0 && e.errno != 4) || e.act == "zero"));
+        let fd2_err = r.events.iter().any(|e| e.kind == 'W' && e.fd == 2 && ((e.ret < 0 && e.errno != 4) || e.act == "zero"));
         let rd_err = r.events.iter().any(|e| e.kind == 'R' && e.ret < 0 && e.errno != 4);
         let op_err = r.events.iter().any(|e| e.kind == 'O' && e.ret < 0 && e.errno != 4);
         let cw_err = r.events.iter().any(|e| e.kind == 'G' && e.ret < 0 && e.errno != 34);
@@ -200,7 +205,7 @@ impl Property for C02 {
             out.probes.push("both-sinks-failing".into());
         }
         // position bucket of the first failing stdout write
-        if let Some(e) = r.events.iter().find(|e| e.kind == 'W' && e.fd == 1 && e.ret < 0 && e.errno != 4) {
+        if let Some(e) = r.events.iter().find(|e| e.kind == 'W' && e.fd == 1 && ((e.ret < 0 && e.errno != 4) || e.act == "zero")) {
             let total = r.events.iter().filter(|x| x.kind == 'W' && x.fd == 1).count();
             let idx = r.events.iter().filter(|x| x.kind == 'W' && x.fd == 1 && x.seq < e.seq).count();
             let b = if idx == 0 { "first" } else if idx + 1 >= total { "last" } else { "middle" };
